@@ -110,7 +110,7 @@ def plain_variant_outs(case):
 
 def _ext(path):
     base = fmt.strip_container(path)
-    return base[base.rindex(".") :] + fmt.container_of(path)
+    return base[base.rindex(".") :] + fmt.container_of(path)  # templates always carry an extension
 
 
 def evaluate(case, ctx):
